@@ -144,3 +144,62 @@ Theorem C01_records_exceed_P :
     (cP c < List.length (g_list (Conc.shared cf)))%nat.
 Proof. exact hp_records_exceed_P. Qed.
 Print Assumptions C01_records_exceed_P.
+
+(** ------------------------------------------------------------------------------------------------------------------
+    BOTH scans (in-place scan included).  Proofs: LV.Proofs.HpLiveInplace{Rule,Inv,Safe,Safe2,Glue}.v and
+    LV.Proofs.HpLiveInplace.v.  The invariant [HpLiveInplaceInv.Inv3] adds to [HpLiveCopyInv.Inv2] the fact that the
+    retired array an in-place scan loaded holds no object more often than it was retired; it is read off the claim
+    the scanning thread holds in [HpInv.Inv] at the current_ load of inplace_scan (rule [HpLiveInplaceRule.safe_pair1]).
+    The theorems below carry NO hypothesis on the scan kind. *)
+From LV Require Import Proofs.HpLiveInplaceInv Proofs.HpLiveInplace.
+
+(** First sentence for a chain of slots, both scans.  For the in-place scan: given that no object was retired twice
+    before the disposer call (as [C01_no_dispose_while_guarded]; inplace_scan marks only the first of two equal
+    cells of the sorted array, so the hypothesis is necessary). *)
+Theorem C01_no_dispose_while_chained_both :
+  forall (c : cfgT) (ths : list (list op)) cf,
+    Conc.reach (Hp.init_cfg c ths) cf ->
+    forall d t p s, nth_error (Conc.trace cf) d = Some (t, ev_dispose p) ->
+      last_sb (firstn d (Conc.trace cf)) t = Some s ->
+      (cInplace c = true -> retire_once (firstn d (Conc.trace cf))) -> p <> 0%Z ->
+      forall r, ~ chain (firstn (S d) (Conc.trace cf)) s r p.
+Proof. exact hp_no_dispose_while_chained_both. Qed.
+Print Assumptions C01_no_dispose_while_chained_both.
+
+(** The statement kept open above: [C01_copied_ptr_live] without [cInplace c = false]. *)
+Theorem C01_copied_ptr_live_inplace : C01_copied_ptr_live_inplace_statement.
+Proof. exact hp_copied_ptr_live_both. Qed.
+Print Assumptions C01_copied_ptr_live_inplace.
+
+(** [C01_guards_live] (any number of upward copies) without [cInplace c = false]. *)
+Definition C01_guards_live_both_statement : Prop :=
+  forall (c : cfgT) (ths : list (list op)) cf,
+    Conc.reach (Hp.init_cfg c ths) cf -> client_discipline (Conc.trace cf) ->
+    forall v d t u j p, (v < d)%nat -> p <> 0%Z ->
+      guards (Conc.trace cf) t p j v ->
+      nth_error (Conc.trace cf) d = Some (u, ev_dispose p) ->
+      exists m e, (v < m < d)%nat /\ nth_error (Conc.trace cf) m = Some (t, e) /\ releases j e.
+Theorem C01_guards_live_both : C01_guards_live_both_statement.
+Proof. exact hp_guards_live_both. Qed.
+Print Assumptions C01_guards_live_both.
+
+(** non-vacuity: the run of [C01_copy_up_example] with the IN-PLACE scan, HP(2,2,8,inplace); object 4 is even, so
+    inplace_scan does not fall back to classic_scan.  Same story: the first scan of thread 1 (events 52..62) keeps
+    object 4 although the source guard (slot 0) is already null -- only the copy in slot 1 protects it; after thread 0
+    cleared slot 1 (store at 66) the second scan disposes it (event 78). *)
+Definition C01_copy_up_example_inplace :=
+  Hp.run_case [2;2;8;1;1;50]%Z [[[1];[6;0;4];[3;0;0];[10;1;0];[5;0];[9;1];[5;1]]; [[1];[6;0;0];[8];[8]]]%Z
+    (repeat 0%nat 14 ++ repeat 1%nat 19 ++ repeat 0%nat 1 ++ repeat 1%nat 10) 1000.
+Example C01_copied_ptr_live_inplace_nonvacuous :
+  let tr := fst C01_copy_up_example_inplace in
+  snd C01_copy_up_example_inplace = true /\
+  cInplace (Hp.norm_cfg [2;2;8;1;1;50]%Z) = true /\
+  nth_error tr 20 = Some (0%nat, EvCli "protected" [0; 4]%Z) /\
+  nth_error tr 21 = Some (0%nat, EvCli "copy" [1; 0]%Z) /\
+  nth_error tr 26 = Some (0%nat, EvCli "copied" []) /\
+  slot_at (firstn 30 tr) 0 0 = 0%Z /\
+  nth_error tr 62 = Some (1%nat, ev_scan_end 1 [4%Z]) /\
+  nth_error tr 32 = Some (0%nat, EvCli "clear" [1%Z]) /\
+  nth_error tr 78 = Some (1%nat, ev_dispose 4) /\
+  cnt "retire" 4 tr = 1%Z /\ cnt "dispose" 4 tr = 1%Z.
+Proof. vm_compute. repeat split; reflexivity. Qed.
